@@ -197,7 +197,9 @@ scc_helper(_, _, _) :-
 run_cleaners_with_handling :-
     '$get_scc_cleaner'(C),
     '$get_cp'(B),
-    catch(C, _, true),
+    % the outcome of a cleanup is ignored: a failing one must not
+    % keep the cleanups after it from running.
+    (  catch(C, _, true) -> true ; true  ),
     '$set_cp_by_default'(B),
     run_cleaners_with_handling.
 run_cleaners_with_handling :-
@@ -208,7 +210,7 @@ run_cleaners_with_handling :-
 run_cleaners_without_handling(Cp) :-
     '$get_scc_cleaner'(C),
     '$get_cp'(B),
-    call(C),
+    (  call(C) -> true ; true  ),
     '$set_cp_by_default'(B),
     run_cleaners_without_handling(Cp).
 run_cleaners_without_handling(Cp) :-
